@@ -134,6 +134,23 @@ func legC19(e *Engine) []Violation {
 			cb.q("dv", itoa(sg), hx(tag), intList([]int{3, 1025, 4, 1026, 8, 0, n - 1, 64}))
 			cb.q("dv", itoa(sg), hx(tag), intList([]int{n - 1, n - 2, 3, 1024, 1025, 1026, 1027, 1028, 1029, 1030, 1031, 1032, 1033, 1034, 1036, 1040, n - 1, 64}))
 			special = true
+		} else if i%6 == 2 {
+			// two stored blocks of same-shaped records; visits go back and forth between the blocks
+			// (the visit context is pooled: what it held before must never be served)
+			cb.u.fields = [][]byte{[]byte("_id"), []byte("v")}
+			cb.u.terms = [][]byte{[]byte("x")}
+			n := r.Range(131, 180)
+			docs := make([]Doc, n)
+			for d := range docs {
+				id := []byte(fmt.Sprintf("%04d", d))
+				docs[d] = Doc{{Name: []byte("_id"), Length: 1, Store: true, Value: id, Terms: []TermOcc{{Term: id, Freq: 1}}},
+					{Name: []byte("v"), Store: true, Value: []byte(fmt.Sprintf("value-%04d", d))}}
+			}
+			sg = cb.addBuild(docs, 1024, "hook")
+			for _, d := range []int{2, 130, 3, n - 1, 127, 128, 0} {
+				cb.q("stored", itoa(sg), itoa(d), "-1")
+			}
+			special = true
 		} else if r.Chance(1, 2) {
 			sg, _ = cb.genMergePlan("tiny", false)
 		} else {
@@ -641,6 +658,11 @@ func legC14(e *Engine) []Violation {
 			class = "block"
 		}
 		target, mode, _ := cb.genLeaf(class, "t")
+		if i%10 == 5 {
+			// more than a thousand postings lists with varied terms: structures of the pooled builder
+			// that are SIZED by the first batch they see (not only filled by it) show here
+			target = manyTerms(r, 260)
+		}
 		emptyPool()
 		cold, err := buildBytes(target, cb.c.Norm, mode)
 		if err != nil {
@@ -870,8 +892,16 @@ func legC15(e *Engine) []Violation {
 		// plain reads between the snapshots: the whole script once more with earlier objects handed
 		// back as prealloc, and DocsMatchingTerms on present and absent (field, term) pairs
 		rcx := newReuse(true, hashString(c.ID))
-		for _, q := range c.Queries {
+		reentry := ""
+		for qi, q := range c.Queries {
 			_ = w.Exec(q, rcx)
+			// a read started while another read of the same segment is delivering its values
+			if q[0] == "stored" && qi < len(tr1) {
+				inner := c.Queries[(qi*7+3)%len(c.Queries)]
+				if a := w.execReentrant(q, inner); a != tr1[qi] && reentry == "" {
+					reentry = fmt.Sprintf("`%s` with `%s` (and nested visits) issued from inside its visitor: the values delivered changed\n  alone:  %s\n  nested: %s", strings.Join(q, " "), strings.Join(inner, " "), tr1[qi], a)
+				}
+			}
 		}
 		for si := range w.segs {
 			if !ok(w.segs[si]) {
@@ -907,7 +937,7 @@ func legC15(e *Engine) []Violation {
 			}
 		}
 		img2, tr2 := snap()
-		bad := ""
+		bad := reentry
 		for j := range img1 {
 			if !bytes.Equal(img1[j], img2[j]) {
 				bad = fmt.Sprintf("persisted bytes of segment %d changed", j)
@@ -988,6 +1018,15 @@ func legC09(e *Engine) []Violation {
 		for s := 0; s <= final && class != "chunk"; s++ {
 			if class == "tiny" || s == 0 || s == final {
 				cb.observeAll(s)
+			}
+		}
+		{
+			var all []string
+			for s := 0; s <= final; s++ {
+				all = append(all, itoa(s))
+			}
+			for _, f := range append(cb.queryFields(), []byte("nosuchfield")) {
+				cb.q("statsmerge", strings.Join(all, ","), hx(f))
 			}
 		}
 		c := cb.c
@@ -1109,6 +1148,11 @@ func (w *World) execReentrant(q Query, inner Query) string {
 			_ = rs.seg.VisitStoredFields(n, func(string, []byte) bool { return true })
 			if n > 0 {
 				_ = rs.seg.VisitStoredFields(n-1, func(string, []byte) bool { return true })
+			}
+			// ... and of documents in other 128-document blocks
+			_ = rs.seg.VisitStoredFields(n+128, func(string, []byte) bool { return true })
+			if n >= 130 {
+				_ = rs.seg.VisitStoredFields(n-130, func(string, []byte) bool { return true })
 			}
 			_ = w.exec(inner, nil)
 			// the value handed to us must still be intact after the nested calls
@@ -1247,6 +1291,65 @@ func legC11(e *Engine) []Violation {
 				}
 			}
 		}
+		// the final merge once more, into a destination that is itself a bufio.Writer (smaller and
+		// larger than the merge buffer): after the caller's own Flush the destination holds exactly
+		// the returned number of bytes, and they are the reference file
+		for si := len(c.Segs) - 1; si >= 0; si-- {
+			sd := c.Segs[si]
+			if sd.Kind != "merge" || w.segs[si].err != "" {
+				continue
+			}
+			segs := make([]segment.Segment, len(sd.Ins))
+			bad := false
+			for j, in := range sd.Ins {
+				if w.segs[in.Seg].err != "" {
+					bad = true
+				}
+				segs[j] = w.segs[in.Seg].seg
+			}
+			if bad {
+				break
+			}
+			mkDrops := func() []*roaring.Bitmap {
+				drops := make([]*roaring.Bitmap, len(sd.Ins))
+				for j, in := range sd.Ins {
+					if !in.Nil {
+						drops[j] = bitmapOf(in.Drops)
+					}
+				}
+				return drops
+			}
+			var plain bytes.Buffer
+			if _, err := ice.Merge(segs, mkDrops(), 4096).WriteTo(&plain, nil); err != nil {
+				break
+			}
+			ref := plain.Bytes()
+			for _, sizes := range [][2]int{{16, 1 << 20}, {4096, 1 << 20}, {4096, 64}, {64, 64}, {1 << 16, 4096}} {
+				drops := mkDrops()
+				var dst bytes.Buffer
+				bw := bufio.NewWriterSize(&dst, sizes[0])
+				n, err := ice.Merge(segs, drops, sizes[1]).WriteTo(bw, nil)
+				ferr := bw.Flush()
+				msg := ""
+				switch {
+				case err != nil || ferr != nil:
+					msg = fmt.Sprintf("error %v / %v", err, ferr)
+				case n != int64(dst.Len()):
+					msg = fmt.Sprintf("WriteTo returned %d, %d bytes reached the destination", n, dst.Len())
+				case !bytes.Equal(dst.Bytes(), ref):
+					msg = "the bytes differ from the file of the same merge written into a plain buffer"
+				}
+				if msg != "" {
+					mu.Lock()
+					vs = append(vs, Violation{Prop: "C11", CaseID: c.ID, Kind: "fault", Case: c,
+						Detail: fmt.Sprintf("merge %d written through Merger.WriteTo(merge buffer %d) into a bufio.Writer of %d bytes, then flushed by the caller: %s", si, sizes[1], sizes[0], msg)})
+					mu.Unlock()
+					return
+				}
+				atomic.AddInt64(&attempts, 1)
+			}
+			break
+		}
 		e.noteCase(c, true)
 	})
 	e.count("persist-after-failed-persist", int(attempts))
@@ -1334,4 +1437,28 @@ func crossProcess(cb *caseBuilder, target []Doc, mode uint32) string {
 		return fmt.Sprintf("the bytes New produces for the target batch depend on what was built before IN THE SAME PROCESS (sha256 / length): %s as the first build of a fresh process, %s after a 1-document then a 300-document batch, %s after the 300-document then the 1-document batch (process-wide state outside the pooled builder)", alone, afterSmallFirst, afterLargeFirst)
 	}
 	return ""
+}
+
+// manyTerms: n documents with a unique id and a handful of words from a large pseudo-random
+// vocabulary: well over a thousand distinct (field, term) pairs.
+func manyTerms(r *Rng, n int) []Doc {
+	word := func() []byte {
+		l := r.Range(3, 9)
+		b := make([]byte, l)
+		for i := range b {
+			b[i] = byte('a' + r.Intn(26))
+		}
+		return b
+	}
+	docs := make([]Doc, n)
+	for d := range docs {
+		id := []byte(fmt.Sprintf("doc-%d", d))
+		f := FieldInst{Name: []byte("body"), Store: r.Chance(1, 2), Value: []byte("v")}
+		for k := r.Range(4, 8); k > 0; k-- {
+			f.Terms = append(f.Terms, TermOcc{Term: word(), Freq: 1})
+			f.Length++
+		}
+		docs[d] = Doc{{Name: []byte("_id"), Length: 1, Terms: []TermOcc{{Term: id, Freq: 1}}}, f}
+	}
+	return docs
 }
